@@ -5,7 +5,7 @@ fn stub_bits<const N: usize>(_x: &bnum::BUint<N>) -> u32 {
     unsafe { VERIF_BITS }
 }
 
-// @harness params_factor_base_size unit=params::factor_base_size props=C20
+// @harness params_factor_base_size unit=params::factor_base_size props=C20,C03
 #[kani::proof]
 #[kani::stub(bnum::BUint::bits, stub_bits)]
 fn params_factor_base_size_ok() {
@@ -19,7 +19,7 @@ fn params_factor_base_size_ok() {
     assert!(s >= 6 && s <= (1 << 25));
 }
 
-// @harness params_qs_fb_size unit=params::qs_fb_size props=C20
+// @harness params_qs_fb_size unit=params::qs_fb_size props=C20,C03
 #[kani::proof]
 #[kani::unwind(8)]
 fn params_qs_fb_size_ok() {
@@ -30,7 +30,7 @@ fn params_qs_fb_size_ok() {
     assert!(s >= 16 && s <= 500_000);
 }
 
-// @harness params_mpqs_fb_size unit=params::mpqs_fb_size props=C20
+// @harness params_mpqs_fb_size unit=params::mpqs_fb_size props=C20,C03
 #[kani::proof]
 #[kani::unwind(8)]
 fn params_mpqs_fb_size_ok() {
@@ -41,7 +41,7 @@ fn params_mpqs_fb_size_ok() {
     assert!(s >= 16 && s <= 500_000);
 }
 
-// @harness params_clsgrp_fb_size unit=params::clsgrp_fb_size props=C20
+// @harness params_clsgrp_fb_size unit=params::clsgrp_fb_size props=C20,C03
 #[kani::proof]
 #[kani::unwind(8)]
 fn params_clsgrp_fb_size_ok() {
@@ -52,7 +52,7 @@ fn params_clsgrp_fb_size_ok() {
     assert!(s >= 16 && s <= 100_000);
 }
 
-// @harness params_stage2_table unit=params::STAGE2_PARAMS props=C20,C16
+// @harness params_stage2_table unit=params::STAGE2_PARAMS props=C20,C16,C03
 #[kani::proof]
 fn params_stage2_table_ok() {
     // every row of the ECM stage-2 table: d1 multiple of 6 (stage 2 walks residues coprime to 6), d2 > 0,
@@ -94,7 +94,7 @@ fn params_stage2_select_ok() {
     assert!(!((STAGE2_PARAMS[j].0 - b2).abs() < (r.0 - b2).abs()));
 }
 
-// @harness params_stage2_select_rows unit=params::stage2_params props=C20,C16
+// @harness params_stage2_select_rows unit=params::stage2_params props=C20,C16,C03
 #[kani::proof]
 #[kani::unwind(50)]
 fn params_stage2_select_rows_ok() {
